@@ -426,14 +426,20 @@ pub fn run_jobs_env(
     let next = AtomicUsize::new(0);
     let results: Mutex<Vec<Option<JobResult>>> = Mutex::new(vec![None; jobs.len()]);
     std::thread::scope(|s| {
-        for _ in 0..parallelism.max(1).min(jobs.len().max(1)) {
-            s.spawn(|| {
+        for slot in 0..parallelism.max(1).min(jobs.len().max(1)) {
+            let (next, results, exe) = (&next, &results, &exe);
+            s.spawn(move || {
+                // Each concurrently running child gets a distinct slot number (children that pin
+                // themselves to one processor use it to spread out).
+                let mut env: Vec<(String, String)> = env.to_vec();
+                env.push(("VERIF_JOB_SLOT".to_string(), slot.to_string()));
+                let env = &env[..];
                 loop {
                     let i = next.fetch_add(1, Ordering::SeqCst);
                     if i >= jobs.len() {
                         break;
                     }
-                    let r = run_one(&exe, &jobs[i], timeout, env);
+                    let r = run_one(exe, &jobs[i], timeout, env);
                     results.lock().unwrap()[i] = Some(r);
                 }
             });
